@@ -8,6 +8,8 @@
 -/
 import MpirProofs.Lemmas.AliasRootrem
 import MpirProofs.Lemmas.AliasMul
+import MpirProofs.Lemmas.AliasGcdext
+import MpirProofs.Props.C07_gcdextdc2
 namespace Mpir.AliasMem
 open Mpir
 
@@ -123,5 +125,45 @@ example : errOf3 (mpz_mulV { smallGuard := false } 0 0 1 exSt8) = "ub:mpn_mul pr
 -- (c) no TMP copy of the operand that is the destination
 example : errOf3 (mpz_mulV { copyOperand := false } 0 0 3 exSt9) = "ub:mpn_mul product overlaps a factor" := by decide +kernel
 example : errOf3 (mpz_mulV { copyOperand := false } 0 3 0 exSt9) = "ub:mpn_mul product overlaps a factor" := by decide +kernel
+
+/-! ## mpz_gcdext -/
+
+/-- mpz_gcdext (mpz/gcdext.c), every choice of g, s, t, a, b the manual allows: g, s, t pairwise distinct, s and/or t NULL
+    (`none`), each output possibly one of the operands, a = b allowed.  The outputs hold the values the value-level model
+    `Gcd.mpz_gcdext` computes from the values of a and b BEFORE the call (that triple is the one the manual describes:
+    C07 `mpz_gcdext_correct`), every other variable keeps its value.  What the C does for it: `SIZ (a)` is read (:53, :80) before
+    any output is written; mpn_gcdext — which destroys its inputs — works on TMP copies of both operands (:71-73) and into TMP
+    blocks (:75); t = (g - s a) / b is computed (:82-97, three local mpz variables, mpz_mul / mpz_sub / mpz_divexact) BEFORE s
+    (:99-106) and g (:108-110) are stored; the `bsize == 0` exit copies |a| to g before it touches s and t (:55-65).
+    `1 ≤ ALLOC` of s and t is MPIR's object invariant: `PTR (s)[0] = 1` (:64) is stored without a realloc.  The contract of
+    mpn_gcdext used inside is the theorem `C07z.mpn_gcdext_contract`. -/
+theorem gcdext_ptr_spec {st : St} (h : Inv st) {g a b : Nat} {sv tv : Option Nat}
+    (hg : g < st.nv) (ha : a < st.nv) (hb : b < st.nv) (hs : ∀ x ∈ sv, x < st.nv) (ht : ∀ x ∈ tv, x < st.nv)
+    (hgs : g ∉ sv) (hgt : g ∉ tv) (hst : ∀ x ∈ sv, x ∉ tv)
+    (has : ∀ x ∈ sv, 1 ≤ st.alloc x) (hat : ∀ x ∈ tv, 1 ≤ st.alloc x) :
+    ∃ st', gcdext g sv tv a b st = .ok st' ∧ Inv st' ∧ st'.nv = st.nv ∧
+      st'.value g = (Gcd.mpz_gcdext (st.value a) (st.value b)).1 ∧
+      (∀ x ∈ sv, st'.value x = (Gcd.mpz_gcdext (st.value a) (st.value b)).2.1) ∧
+      (∀ x ∈ tv, st'.value x = (Gcd.mpz_gcdext (st.value a) (st.value b)).2.2) ∧
+      ∀ i, i < st.nv → i ≠ g → i ∉ sv → i ∉ tv → st'.value i = st.value i :=
+  gcdext_ok Mpir.C07z.mpn_gcdext_contract h hg ha hb hs ht hgs hgt hst has hat
+
+-- g = a and s = b in place; t = a; s = NULL; a = b = g (one variable); the bsize = 0 exit with s = a
+example : lookG (gcdext 0 (some 1) (some 2) 0 1 (ofInts [gxA, gxB, 0])) 3 = .ok [(3, 3, 0), (gxS, 2, 1), (gxT, 3, 8)] := by decide +kernel
+example : lookG (gcdext 0 (some 1) (some 2) 2 3 (ofInts [0, 0, gxA, gxB])) 4 =
+    .ok [(3, 1, 0), (gxS, 2, 9), (gxT, 3, 2), (gxB, 2, 3)] := by decide +kernel
+example : lookG (gcdext 0 none (some 2) 2 3 (ofInts [0, 0, gxA, gxB])) 4 =
+    .ok [(3, 1, 0), (0, 1, 1), (gxT, 3, 2), (gxB, 2, 3)] := by decide +kernel
+example : lookG (gcdext 3 (some 1) (some 2) 3 3 (ofInts [5, 6, 7, gxA])) 4 = .ok [(5, 1, 0), (0, 1, 1), (1, 1, 2), (gxA, 3, 3)] := by
+  decide +kernel
+example : lookG (gcdext 0 (some 1) (some 2) 1 3 (ofInts [5, -gxA, 7, 0])) 4 = .ok [(gxA, 3, 4), (-1, 3, 1), (0, 1, 2), (0, 1, 3)] := by
+  decide +kernel
+example : gxA * gxS + gxB * gxT = 3 := by decide +kernel
+-- negative examples (more in Lemmas/AliasGcdext.lean): s stored before t is computed, s = a: t is wrong (right: gxT);
+-- no TMP copies of the operands and a = b: mpn_gcdext's two source operands overlap
+example : lookG (gcdextV { tBeforeS := false } 0 (some 1) (some 2) 1 3 (ofInts [0, gxA, 0, gxB])) 4 =
+    .ok [(3, 1, 0), (gxS, 3, 1), (1955453703669360966019249215, 2, 9), (gxB, 2, 3)] := by decide +kernel
+example : lookG (gcdextV { copyOperands := false } 0 (some 1) (some 2) 3 3 (ofInts [0, 0, 0, gxA])) 4 =
+    .error "ub:mpn_gcdext operands overlap" := by decide +kernel
 
 end Mpir.AliasMem
